@@ -95,7 +95,9 @@ func checkTime(v oracle.Value, t time.Time, s progs.Settings) error {
 	}
 	// the text read back is the instant that was logged (to the precision the layout carries); only for the two
 	// layouts that are self-describing, and for zone offsets of whole minutes (RFC 3339 has no seconds in offsets)
-	if _, off := t.Zone(); (s.TimeFormat == time.RFC3339 || s.TimeFormat == time.RFC3339Nano) && off%60 == 0 && t.Year() >= 0 && t.Year() <= 9999 {
+	// (and within a day: what the directed sweeps generated when this was written; offsets of 24 hours and more are
+	// printed by the time package but not read back by it)
+	if _, off := t.Zone(); (s.TimeFormat == time.RFC3339 || s.TimeFormat == time.RFC3339Nano) && off%60 == 0 && off > -86400 && off < 86400 && t.Year() >= 0 && t.Year() <= 9999 {
 		back, err := time.Parse(time.RFC3339Nano, v.Str)
 		if err != nil {
 			return fmt.Errorf("time text %q does not parse: %v", v.Str, err)
@@ -348,7 +350,9 @@ func runC02(c *Ctx, emit func(cs *progs.Case) progs.Obs) {
 		reps = 60
 	}
 	key := []byte("val")
-	probe := func(m string, p progs.Prim, s progs.Settings) {
+	var probeSel func(m string, p progs.Prim, s progs.Settings, sel func(entry string) bool)
+	probe := func(m string, p progs.Prim, s progs.Settings) { probeSel(m, p, s, nil) }
+	probeSel = func(m string, p progs.Prim, s progs.Settings, sel func(entry string) bool) {
 		mk := func(ops []progs.Op, steps []progs.Step) *progs.Case {
 			return &progs.Case{S: s, Level: 6, Ops: ops, Steps: steps}
 		}
@@ -387,6 +391,9 @@ func runC02(c *Ctx, emit func(cs *progs.Case) progs.Obs) {
 		var first []byte
 		var firstName string
 		for _, en := range entries {
+			if sel != nil && !sel(en.name) {
+				continue
+			}
 			o := emit(en.cs)
 			if !o.Written {
 				continue
@@ -525,7 +532,99 @@ func runC02(c *Ctx, emit func(cs *progs.Case) progs.Obs) {
 			probe("Times", progs.Prim{M: "Times", V: ts}, s)
 		}
 	}
+	runC02Directed(c, probe, probeSel)
 	runC02History(c, emit)
+}
+
+// eulerWalk: a sequence over 0..n-1 in which every ordered pair (a, b), a != b, occurs as two consecutive items
+func eulerWalk(n int) []int {
+	used := map[[2]int]bool{}
+	walk := []int{0}
+	for len(used) < n*(n-1) {
+		cur := walk[len(walk)-1]
+		next := -1
+		for k := 1; k < n && next < 0; k++ {
+			if b := (cur + k) % n; !used[[2]int{cur, b}] {
+				next = b
+			}
+		}
+		if next < 0 { // every edge out of cur is used: continue from a vertex that still has one
+			for a := 0; a < n && next < 0; a++ {
+				for b := 0; b < n && next < 0; b++ {
+					if a != b && a != cur && !used[[2]int{a, b}] {
+						next = a
+					}
+				}
+			}
+		}
+		used[[2]int{cur, next}] = true // (a jump is a consecutive pair too)
+		walk = append(walk, next)
+	}
+	return walk
+}
+
+// runC02Directed: (1) Type() of values whose type NAME has quote / backslash / non-ASCII characters (the documented
+// text form is reflect's name of the type); (2) time values at the ends of what time.Time carries under the layouts
+// (the UNIXMS/MICRO/NANO formats are restricted to the UnixNano range by the property, the layouts are not);
+// (3) neighbouring time values logged one after the other: every ordered pair of instants that share the second (and
+// differ in the fraction), the minute, or the instant but not the zone, as consecutive elements of one Times() call
+// and as consecutive events through rotating entry points, under layouts of every resolution - whole minutes, whole
+// seconds, fractions written with a dot and with a comma (both are fraction separators of the time package),
+// fixed-width (000) and trimmed (999) - and with the layout changing between two events.  What is decoded is each
+// value's own text, whatever was logged just before.
+func runC02Directed(c *Ctx, probe func(string, progs.Prim, progs.Settings), probeSel func(string, progs.Prim, progs.Settings, func(string) bool)) {
+	def := progs.DefaultSettings()
+	def.LevelName = ""
+	for _, v := range progs.AwkwardTypeValues() {
+		probe("Type", progs.Prim{M: "Type", V: v}, def)
+	}
+	ext := extremeInstants()
+	for _, layout := range []string{time.RFC3339, time.RFC3339Nano, time.RFC1123Z} {
+		s := def
+		s.TimeFormat = layout
+		for i := 0; i < len(ext); i += 16 {
+			j := i + 16
+			if j > len(ext) {
+				j = len(ext)
+			}
+			probe("Times", progs.Prim{M: "Times", V: ext[i:j]}, s)
+		}
+		for i := 0; i < len(ext); i += 5 {
+			probeSel("Time", progs.Prim{M: "Time", V: ext[i]}, s, func(e string) bool { return e == "event" || e == "fields-map" })
+		}
+	}
+	// (3)
+	base := time.Unix(1715941815, 0).UTC()
+	zoneA, zoneB := time.FixedZone("", 3600), time.FixedZone("", 3600) // equal offsets, two Location values
+	instants := []time.Time{base, base.Add(7 * time.Millisecond), base.Add(123456 * time.Microsecond), base.Add(999999999), base.Add(time.Second + 7*time.Millisecond),
+		base.Add(7 * time.Millisecond).In(zoneA), base.Add(500 * time.Millisecond).In(zoneB), base.Add(31 * time.Second)}
+	walk := eulerWalk(len(instants))
+	layouts := []string{time.RFC3339, "2006-01-02 15:04:05,000 -0700", time.RFC3339Nano, "2006-01-02T15:04:05,999999Z07:00", "15:04:05.00", time.StampMicro + " Z07:00",
+		"Jan _2 15:04:05,999999999 -07", time.Kitchen, "2006-01-02T15:04:05.000000000Z07:00", "15:04:05,9"}
+	entries := []string{"event", "context", "array", "fields-slice", "dict", "fields-map", "object"}
+	step := 0
+	for _, layout := range layouts {
+		s := def
+		s.TimeFormat = layout
+		var seq []time.Time
+		for _, i := range walk {
+			seq = append(seq, instants[i])
+		}
+		probe("Times", progs.Prim{M: "Times", V: seq}, s)
+		w := walk
+		if !c.Thorough() {
+			w = walk[:len(walk)/2+1] // quick: the slice above holds every pair; as separate events, half of the walk per layout
+			if step%2 == 1 {
+				w = walk[len(walk)/2:]
+			}
+		}
+		for _, i := range w {
+			want := entries[step%len(entries)]
+			step++
+			probeSel("Time", progs.Prim{M: "Time", V: instants[i]}, s, func(e string) bool { return e == want })
+		}
+		c.Hist("c02_time_neighbours", layout)
+	}
 }
 
 // runC02History: the event under test is preceded, on the same logger and goroutine, by events that are filtered out
